@@ -101,7 +101,29 @@ def t1_cache(mi: int, i0: int, i1: int, i2: int, two: bool) -> bool:
 
 
 # ----------------------------------------------------------------------------- C05.b T2 stage cache
-T2_MUT = ["none", "other_agent", "add_episode", "k_retrieval", "owner_scope_any", "ranking", "now_later", "relabel_graph_node", "residual_cap", "slice_cap", "other_state_same_version", "threshold"]
+T2_MUT = ["none", "other_agent", "add_episode", "k_retrieval", "owner_scope_any", "ranking", "now_later", "relabel_graph_node", "residual_cap", "slice_cap", "other_state_same_version", "threshold",
+          "other_t1_result", "clear_and_refill"]
+
+
+class LenEncoder:
+    """Embedding stub whose query vector depends on the query text (4th component = its length), so that a different
+    T1 result (labels appended to the query) yields a different query vector."""
+
+    def encode(self, texts):
+        import numpy as np
+        return [np.asarray([9.0, 0.0, 0.0, float(len(t))], dtype=np.float32) for t in texts]
+
+
+class QCosine(W.CosineStub):
+    """Scores as CosineStub for the plain query 'beta'; reversed (1 - score) for any other query text."""
+
+    def __call__(self, a, b):
+        base = W.CosineStub.__call__(self, a, b)
+        try:
+            plain = float(a[3]) == 4.0
+        except Exception:
+            plain = True
+        return base if plain else 1.0 - base
 OWN = ["A", "B", "world"]
 
 
@@ -117,13 +139,17 @@ def _t2_history(cache_on, mut, owners, scores, s_new):
     state = W.make_state(index=W.make_index(owners=owners))
     t1 = T1Result(graph_deltas=[], metrics={})
     cfg = _t2_cfg(cache_on)
-    ctx = W.make_ctx(cfg, turn_id=1, agent="A")
+    ctx = W.make_ctx(cfg, turn_id=1, agent="A", enc=LenEncoder())
     allsc = list(scores) + [s_new]
-    with W.CosineStub(allsc), W.NumpyShim():
+    t1_second = t1
+    with QCosine(allsc), W.NumpyShim():
         r1 = t2_semantic(ctx, state, "beta", t1)
         agent, now = "A", W.NOW
         extra = {}
-        if mut == "other_agent":
+        if mut == "other_t1_result":
+            # same text, but T1 touched node c this time: its label joins the query text
+            t1_second = T1Result(graph_deltas=[{"op": "upsert_node", "id": "c"}], metrics={})
+        elif mut == "other_agent":
             agent = "B"
         elif mut == "add_episode":
             state["mem_index"].add({"id": "e4", "owner": "A", "text": "alpha new", "ts": "2025-01-09T12:00:00Z", "vec_full": W.marker_vec(3), "aux": {"importance": 0.5}})
@@ -145,8 +171,17 @@ def _t2_history(cache_on, mut, owners, scores, s_new):
             state = W.make_state(index=W.make_index(owners=list(reversed(owners))))
         elif mut == "threshold":
             cfg = _t2_cfg(cache_on, thr=0.75)
-        ctx2 = W.make_ctx(cfg, turn_id=2, agent=agent, now=now, **extra)
-        r2 = t2_semantic(ctx2, state, "beta", t1)
+        elif mut == "clear_and_refill":
+            # same index object, version counter restarts: three other episodes bring it back to the same version
+            idx = state["mem_index"]
+            fresh = W.make_index(owners=list(reversed(owners)))
+            idx.clear()
+            for ep in fresh._eps:
+                ep = dict(ep)
+                ep["id"] = "n" + ep["id"]
+                idx.add(ep)
+        ctx2 = W.make_ctx(cfg, turn_id=2, agent=agent, now=now, enc=LenEncoder(), **extra)
+        r2 = t2_semantic(ctx2, state, "beta", t1_second)
     W.reset_globals()
     return r1, r2, (agent, state)
 
@@ -158,7 +193,7 @@ def _t2_view(r):
 @H.ob(model="realfin", quick=400, thorough=900,
       targets=("clematis/engine/stages/t2/core.py:t2_semantic", "clematis/engine/stages/t2/cache.py:get_cache", "clematis/engine/cache.py:LRUCache.get", "clematis/memory/index.py:InMemoryIndex.index_version"),
       stubs=("memory.index._cosine -> symbolic score per episode", "t2.core.np.mean/max -> pure python"),
-      bounds="history: t2(agent A, text) ; one mutation ; t2(text) on memory M3 with owners of the 3 episodes by symbolic index over {A,B,world}; owner scope agent; scores concrete distinct except one symbolic score; mutation by index over {none, other agent, add episode, k_retrieval, owner scope, ranking weights, later now, relabel a graph node, residual cap, per-slice cap, another state whose index has the same version, threshold}",
+      bounds="history: t2(agent A, text) ; one mutation ; t2(text) on memory M3 with owners of the 3 episodes by symbolic index over {A,B,world}; owner scope agent; scores concrete distinct except one symbolic score; mutation by index over {none, other agent, add episode, k_retrieval, owner scope, ranking weights, later now, relabel a graph node, residual cap, per-slice cap, another state whose index has the same version, threshold, the same index object cleared and refilled to the same version, a different T1 result for the same text (query vector depends on the query text through a length-keyed embedding stub)}",
       split={"mi": list(range(len(T2_MUT)))},
       note="C05.b retrieval cache: ids, order, scores, residual nudges and k_used of every call equal the cache-off run; in particular no episode of another owner is served under agent scope")
 def t2_cache(mi: int, o0: int, o1: int, o2: int, s1: float) -> bool:
@@ -190,7 +225,7 @@ TURN_MUT = ["none", "other_agent", "add_episode", "other_text", "kill_switch_the
 def _turn_history(cache_on, mut, bust, scope_agent, t4_on=True):
     W.reset_globals()
     over = {"t1": {"decay": {"mode": "exp_floor", "rate": 0.6, "floor": 0.05}, "cache": {"enabled": cache_on}},
-            "t2": {"owner_scope": "agent" if scope_agent else "any", "k_retrieval": 3, "sim_threshold": -1.0, "tiers": ["exact_semantic", "archive"], "cache": {"enabled": cache_on}},
+            "t2": {"owner_scope": scope_agent if isinstance(scope_agent, str) else ("agent" if scope_agent else "any"), "k_retrieval": 3, "sim_threshold": -1.0, "tiers": ["exact_semantic", "archive"], "cache": {"enabled": cache_on}},
             "t4": {"enabled": t4_on, "cache": {"enabled": cache_on}, "cache_bust_mode": "on-apply" if bust else "none", "snapshot_every_n_turns": 1000}}
     cfg = W.make_cfg(over)
     state = W.make_state()
@@ -218,15 +253,16 @@ def _turn_history(cache_on, mut, bust, scope_agent, t4_on=True):
 @H.ob(model="none", quick=400, thorough=900,
       targets=("clematis/engine/orchestrator/core.py:Orchestrator.run_turn", "clematis/engine/cache.py:CacheManager.get", "clematis/engine/apply.py:apply_changes"),
       stubs=("log sink and snapshot writer captured in memory (TurnSpy); embedding adapter -> marker vectors",),
-      bounds="two consecutive real run_turn calls on one state (world W3, memory M3 owned by A/B/world); mutation between them by index over {none, other agent, episode added, other text, kill switch off + other agent, graph node relabelled}; cache-bust mode on-apply / none; T4 kill switch on / off for the whole history (off = no version bump between the turns); owner scope agent / any; all concrete (the turn cache key goes through hashing)",
+      bounds="two consecutive real run_turn calls on one state (world W3, memory M3 owned by A/B/world); mutation between them by index over {none, other agent, episode added, other text, kill switch off + other agent, graph node relabelled}; cache-bust mode on-apply / none; T4 kill switch on / off for the whole history (off = no version bump between the turns); owner scope any / agent / 'Agent' (capitalised spelling, accepted by the validator and lower-cased by the stages); all concrete (the turn cache key goes through hashing)",
       split={"mi": list(range(len(TURN_MUT))), "bust": [False, True], "t4_on": [False, True]}, per_path=200,
       note="C05.c turn-level version-keyed cache: utterance and canonical t1/t2/t4/apply/turn/health records of both turns equal those of the same history with every cache switched off (cache diagnostics excluded)")
-def turn_cache(mi: int, bust: bool, scope_agent: bool, t4_on: bool) -> bool:
+def turn_cache(mi: int, bust: bool, scope: int, t4_on: bool) -> bool:
     """
-    pre: 0 <= mi < len(TURN_MUT)
+    pre: 0 <= mi < len(TURN_MUT) and 0 <= scope <= 2
     post: _
     """
     mut = pick(TURN_MUT, mi)
+    scope_agent = pick(["any", "agent", "Agent"], scope)   # the stages lower-case the scope; the validator accepts any spelling
     on = _turn_history(True, mut, bust, scope_agent, t4_on)
     off = _turn_history(False, mut, bust, scope_agent, t4_on)
     return H.verdict(on == off)
